@@ -10,7 +10,7 @@ CFG = {
             "h_extract's row order = declaration order of the constructors of the single eq-sort, then constructor_enodes order (the BFS over sorts of compute_costs_from_rootsorts is trivial for one sort); the theorems hold for every row order",
         ],
         "theorem_backed": "for every e-graph (list of rows with children that are classes or base values, subsumed flags, per-constructor cost/unextractable) and every row order: a returned term lies in the class through allowed rows only, its saturating tree cost equals the reported cost, no allowed term of the class is cheaper (the loop stops at the least fixpoint; also under saturation), failure only if the class has no allowed term, the relaxation loop terminates, reconstruction terminates and never panics for classes whose cost is below 2^64-1, variants are members rooted at distinct e-nodes; totality is refuted under saturation (F4 witness evaluates to Panic)",
-        "link_only": "containers of e-classes (Vec/Set/Map/MultiSet/Pair children: container_cost, inner_values, reconstruct_termdag_container) and multi-sort reachability (BFS of compute_costs_from_rootsorts), view tables of proof/term encoding (term_constructor, find_canonical), custom CostModel implementations, extract_value/function_to_dag entry points: not modelled and not generated by h_extract; the TermDag cache is modelled as the pure function it memoises",
+        "link_only": "containers of e-classes (Vec/Set/MultiSet/Pair-of-E constructor arguments: container_cost, inner_values, rank through containers, reconstruct_termdag_container) are NOT in the Coq model; h_extract generates them in one case out of three (incl. cycles through containers, zero-cost wrappers before leaves, ties) and checks the property predicates on the implementation only (termination/no abort via a supervised child process, member via dump evaluation and (check (= term e)) on a clone, recomputed tree cost with a container costing the sum of its elements, independent least fixpoint treating a container child as the multiset of its element classes); those cases are kept out of the kernel-evaluated case files (extra_coverage c07_link_only_container_cases). Map containers, multi-sort reachability (BFS of compute_costs_from_rootsorts), view tables of proof/term encoding (term_constructor, find_canonical), custom CostModel implementations, function_to_dag: not modelled and not generated; the TermDag cache is modelled as the pure function it memoises",
         "assumptions": [
             "e-class ids and constructor ids are unbounded nat; base-value children are i64 literals (cost 1, rank 0)",
             "the e-graph handed to the extractor is rebuilt (canonical ids in rows), as after any top-level command",
